@@ -31,6 +31,34 @@ func body(stmts string) string { return "fn main() {\n" + stmts + "\n}\n" }
 // program, so that a failure signature and the program's tags name the construct.
 func HandPrograms() []Hand {
 	hs := []Hand{
+		// ------------------------------------- value-typed block-like expression statements
+		// (the statement's `;` decides whether the value is discarded or becomes the block's result)
+		one("stmt-match-value-last-in-for", "fn f(i: int) -> int { i % 2 }\n"+body(`for i in 0..3 {
+        match f(i) { 1 => "one", _ => "other" };
+    }
+    println("done");`)),
+		one("stmt-if-value-last-in-while", body(`let i = 0;
+    while i < 2 {
+        i += 1;
+        if i == 1 { 10 } else { 20 };
+    }
+    println(i);`)),
+		one("stmt-block-value-last-in-loop", body(`let i = 0;
+    loop {
+        i += 1;
+        if i > 2 { break; }
+        { i * 2 };
+    }
+    println(i);`)),
+		one("stmt-try-value-last-in-fn", "fn g() { try { 1 } catch e { 2 }; }\n"+body(`g();
+    println("ok");`)),
+		one("stmt-if-value-last-in-if", body(`if true {
+        if false { "a" } else { "b" };
+    }
+    println("ok");`)),
+		one("stmt-match-value-last-in-closure", body(`let f = fn() { match 1 { 1 => 5, _ => 6 }; };
+    f();
+    println("ok");`)),
 		// ----------------------------------------------------------------- strings
 		one("str-plain", body(`println("hello", 'single', "");`)),
 		one("str-dquote", body(`println("a\"b");`)),
